@@ -58,6 +58,48 @@ type VipnodePool struct {
 	mu               sync.Mutex
 	remoteHosts      map[store.NodeID]jsonrpc2.Service
 	remoteNodeLookup map[jsonrpc2.Service]store.NodeID // Reverse lookup
+
+	nodeLocks nodeLocks // Serializes the requests of each node ID
+}
+
+// nodeLocks hands out one mutex per node ID for as long as somebody holds or
+// waits for it. A request spans several store calls (nonce, node, peers,
+// balances); two requests of the same node must not interleave them, or the
+// same stretch of time gets billed twice and a reconnect can slip between an
+// update's read and write of the node.
+type nodeLocks struct {
+	mu    sync.Mutex
+	locks map[string]*nodeLock
+}
+
+type nodeLock struct {
+	mu   sync.Mutex
+	refs int
+}
+
+// lock blocks until nodeID's lock is held and returns the function releasing it.
+func (l *nodeLocks) lock(nodeID string) (unlock func()) {
+	l.mu.Lock()
+	if l.locks == nil {
+		l.locks = map[string]*nodeLock{}
+	}
+	nl, ok := l.locks[nodeID]
+	if !ok {
+		nl = &nodeLock{}
+		l.locks[nodeID] = nl
+	}
+	nl.refs++
+	l.mu.Unlock()
+
+	nl.mu.Lock()
+	return func() {
+		nl.mu.Unlock()
+		l.mu.Lock()
+		if nl.refs--; nl.refs == 0 {
+			delete(l.locks, nodeID)
+		}
+		l.mu.Unlock()
+	}
 }
 
 // TODO: Move CloseRemote and NumRemotes, and remoteHosts etc into a separate struct?
@@ -146,6 +188,7 @@ func (p *VipnodePool) disconnectPeers(ctx context.Context, nodeID string, peers 
 
 // Update submits a list of peers that the node is connected to, returning the current account balance.
 func (p *VipnodePool) Update(ctx context.Context, sig string, nodeID string, nonce int64, req UpdateRequest) (*UpdateResponse, error) {
+	defer p.nodeLocks.lock(nodeID)()
 	// TODO: Send sync status?
 	if err := p.verify(sig, "vipnode_update", nodeID, nonce, req); err != nil {
 		// Try again with old version (DEPRECATED)
@@ -216,6 +259,7 @@ func (p *VipnodePool) Update(ctx context.Context, sig string, nodeID string, non
 // Host registers a full node to participate as a vipnode host in this pool.
 // DEPRECATED: Use Connect
 func (p *VipnodePool) Host(ctx context.Context, sig string, nodeID string, nonce int64, req HostRequest) (*HostResponse, error) {
+	defer p.nodeLocks.lock(nodeID)()
 	// This is a backport of Host using Connect behind the scenes.
 	if err := p.verify(sig, "vipnode_host", nodeID, nonce, req); err != nil {
 		return nil, err
@@ -243,6 +287,7 @@ func (p *VipnodePool) Host(ctx context.Context, sig string, nodeID string, nonce
 // Client returns a list of enodes who are ready for the client node to connect.
 // DEPRECATED: Use Connect
 func (p *VipnodePool) Client(ctx context.Context, sig string, nodeID string, nonce int64, req ClientRequest) (*ClientResponse, error) {
+	defer p.nodeLocks.lock(nodeID)()
 	// This is a backport of Client using Connect behind the scenes.
 	if err := p.verify(sig, "vipnode_client", nodeID, nonce, req); err != nil {
 		return nil, err
@@ -278,6 +323,7 @@ func (p *VipnodePool) Client(ctx context.Context, sig string, nodeID string, non
 
 // Connect returns a list of enodes who are ready for the client node to connect.
 func (p *VipnodePool) Connect(ctx context.Context, sig string, nodeID string, nonce int64, req ConnectRequest) (*ConnectResponse, error) {
+	defer p.nodeLocks.lock(nodeID)()
 	if err := p.verify(sig, "vipnode_connect", nodeID, nonce, req); err != nil {
 		return nil, err
 	}
@@ -361,6 +407,7 @@ func (p *VipnodePool) connect(ctx context.Context, nodeID string, req ConnectReq
 
 // Peer returns a list of enodes who are ready for the node to connect.
 func (p *VipnodePool) Peer(ctx context.Context, sig string, nodeID string, nonce int64, req PeerRequest) (*PeerResponse, error) {
+	defer p.nodeLocks.lock(nodeID)()
 	if err := p.verify(sig, "vipnode_peer", nodeID, nonce, req); err != nil {
 		return nil, err
 	}
